@@ -289,8 +289,11 @@ func c11(e *Env) {
 	c.Floor("sentinel-distinct", 11)
 }
 
-// sentinelProvenance: C11(a).
-func (e *Env) sentinelProvenance() {
+
+// sentinelFacts: the cvsserr sentinels are distinct errors.New values, initialised once and never reassigned.
+// Every rule that treats errs.Wrap(<sentinel>) as a non-nil error matching exactly that sentinel depends on it,
+// so it is part of every property whose rules do (not only of C11).
+func (e *Env) sentinelFacts() {
 	c := e.C
 	// sentinels: distinct errors.New, never reassigned
 	pk := e.P.Lib("cvsserr")
@@ -325,6 +328,13 @@ func (e *Env) sentinelProvenance() {
 		c.Check(ok, "sentinel-distinct", "cvsserr."+name, e.P.Pos(v.Pos()), "initialised once with its own errors.New value", "sentinel is not a distinct errors.New value initialised exactly once")
 	}
 	e.tableImmutability("table-immutability", "cvsserr")
+	_ = n
+}
+
+// sentinelProvenance: C11(a).
+func (e *Env) sentinelProvenance() {
+	c := e.C
+	e.sentinelFacts()
 	// provenance of every returned error in the metric packages
 	errsPkg := "github.com/goark/errs"
 	for _, rel := range []string{"v3/metric", "v2/metric"} {
@@ -503,6 +513,18 @@ func (e *Env) constructorFresh(l *facts.Level, rule string) {
 				if fn.Object() == types.Object(ctor) {
 					continue
 				}
+				// a freshly allocated copy (Clone): no object handed out by a constructor or decoder is changed
+				if rs := e.F.Effects().Roots(st.Addr); len(rs) > 0 {
+					allLocal := true
+					for _, r := range rs {
+						if r.Kind != facts.RLocal {
+							allLocal = false
+						}
+					}
+					if allLocal {
+						continue
+					}
+				}
 				c.Fail(rule, fmt.Sprintf("%s assigns %s.%s", fn.String(), l.Spec.Name, fv.Name()), e.P.Pos(st.Pos()), "only the constructor may set this field (non-nil invariant)")
 			}
 		}
@@ -540,6 +562,12 @@ func (e *Env) namesReaders(v *spec.Version, ls []*facts.Level) {
 					}
 					name := fn.Name()
 					if o, ok := fn.Object().(*types.Func); ok && o == e.P.LookupFunc(l.Version.Pkg, "New"+l.Spec.Name) {
+						continue
+					}
+					if !e.reachableFromAPI()[fn] {
+						// not on any path of decoding, encoding, scoring or reporting: reading the set here cannot
+						// change what those return
+						readers[name+" (not reachable from the decode/encode/score/report operations)"] = true
 						continue
 					}
 					readers[name] = true
@@ -1020,6 +1048,28 @@ func (e *Env) writeOwnership(v *spec.Version, ls []*facts.Level) {
 				l := owner[fv]
 				if l == nil {
 					continue
+				}
+				// a store into an object the function has just allocated itself (a Clone, a copy built for a
+				// computation) does not touch any object a decoder filled; a store through a reference loaded out
+				// of such a copy (copy.Base.S = ...) is traced back to what the reference points to and stays
+				var target ssa.Value
+				switch x := in.(type) {
+				case *ssa.Store:
+					target = x.Addr
+				case *ssa.MapUpdate:
+					target = x.Map
+				}
+				if target != nil {
+					rs := e.F.Effects().Roots(target)
+					allLocal := len(rs) > 0
+					for _, r := range rs {
+						if r.Kind != facts.RLocal {
+							allLocal = false
+						}
+					}
+					if allLocal && fn.Object() != types.Object(e.P.LookupFunc(v.Pkg, "New"+l.Spec.Name)) {
+						continue
+					}
 				}
 				if writers[fv] == nil {
 					writers[fv] = map[string]bool{}
